@@ -409,6 +409,12 @@ func (ms *RocksStorage) ApplySnapshot(snap pb.Snapshot) error {
 	if err != nil {
 		return err
 	}
+	// the log now is exactly the snapshot: entries above its index belong to the log that the
+	// snapshot replaces (MemoryStorage drops them too), otherwise LastIndex() still reports them
+	err = ms.deleteFrom(batch, e.Index+1)
+	if err != nil {
+		return err
+	}
 	return ms.commitBatch(batch)
 }
 
